@@ -86,7 +86,7 @@ def mech_counter(site):
     if op != "Add":
         return None
     t = tys.split(",")[0]
-    if t not in ("usize", "u64"):
+    if t not in ("usize", "u64", "isize"):      # (isize: token / element indexes; user data is i64)
         return None
     ops = site.extra["ops"]
     consts = [_const_int(o) for o in ops]
@@ -135,6 +135,192 @@ def mech_widened(site):
             continue
         return None
     return "widened narrow integer %s small constant (|result| < 2^49)" % {"Add": "+", "Sub": "-", "Mul": "*"}[parts[0]]
+
+
+def mech_bounded_capacity(site):
+    """`s.repeat(n)` / `with_capacity(n)` / `vec![x; n]` behind a size test: on every path to the site a comparison established that a
+    checked product (or the count itself) involving this very `n` does not exceed a constant <= 2^32"""
+    if site.kind != "api:capacity" or site.call is None or len(site.call.args) < 1:
+        return None
+    fn = site.fn
+    cnt = site.call.args[-1]
+    if cnt.get("k") not in ("copy", "move"):
+        return None
+    cid = _op_ident(fn, cnt)
+    if cid is None:
+        return None
+    try:
+        fa = PR.facts(fn)
+        ws = fa.worlds_at(site.bb)
+    except Exception:
+        return None
+    if not ws:
+        return None
+
+    def involves_count(op, depth=4):
+        if op.get("k") not in ("copy", "move") or depth == 0:
+            return False
+        if _op_ident(fn, op) == cid:
+            return True
+        for o in F.origins(fn, op, depth=8):
+            if o.kind == "call" and re.search(r"::(checked_mul|saturating_mul|checked_add|saturating_add)$", short(o.call.name)):
+                if any(a.get("k") in ("copy", "move") and (_op_ident(fn, a) == cid or involves_count(a, depth - 1)) for a in o.call.args):
+                    return True
+        return False
+
+    bound = None
+    for w in ws:
+        found = None
+        for key_, val in w:
+            a = fa.atoms.get(key_, {})
+            if a.get("kind") != "binop" or a.get("op") not in ("Gt", "Ge", "Lt", "Le"):
+                continue
+            l, r = a["l"], a["r"]
+            cl, cr = _const_int(l), _const_int(r)
+            if (cl is None) == (cr is None):
+                continue
+            var, cv = (l, cr) if cr is not None else (r, cl)
+            op = a["op"] if cr is not None else {"Gt": "Lt", "Lt": "Gt", "Ge": "Le", "Le": "Ge"}[a["op"]]
+            # normalised: var OP const
+            upper = (op in ("Gt", "Ge") and val is False) or (op in ("Lt", "Le") and val is True)
+            if upper and cv is not None and 0 <= cv <= (1 << 32) and involves_count(var):
+                found = cv if found is None else min(found, cv)
+        if found is None:
+            return None
+        bound = found if bound is None else max(bound, found)
+    return "size bounded on every path: a checked product / count involving the capacity argument was compared against the constant %d" % bound
+
+
+def _field_of_deref_arg(fn, pl):
+    """(adt, field name) when the place is a field of a struct reached through an argument (`state.depth`, `self.depth`)"""
+    fl = [e for e in pl["p"] if isinstance(e, dict) and "f" in e]
+    if len(fl) != 1 or not fl[0].get("adt") or not (1 <= pl["l"] <= fn.arg_count):
+        return None
+    return (fl[0]["adt"], fl[0]["n"])
+
+
+def mech_balanced_counter(site):
+    """`state.depth -= c` that undoes a dominating `state.depth += c` of the same function (an enter / leave pair around a recursive call):
+    the field is written nowhere else in the crate except where the struct is built, and no other decrement lies between the pair, so
+    by induction over the call depth the counter never drops below its value at function entry - the subtraction cannot underflow"""
+    if site.kind != "overflow" or not site.detail.startswith("Sub "):
+        return None
+    fn = site.fn
+    P = fn.prog
+    ops = site.extra["ops"]
+    c = _const_int(ops[1]) if len(ops) > 1 else None
+    if c is None or c < 0 or ops[0].get("k") not in ("copy", "move"):
+        return None
+    sp = F.source_place(fn, ops[0])
+    fld = _field_of_deref_arg(fn, sp) if sp else None
+    if fld is None:
+        return None
+
+    def updates(g):
+        """(block, 'Add'|'Sub', const) of `field = field +- const` statements of g on this struct field"""
+        out = []
+        for i, st in g.stmts():
+            if st["k"] == "assign" and st["rv"]["k"] == "binop" and st["rv"]["op"].split("With")[0] in ("Add", "Sub"):
+                l_, r_ = st["rv"]["l"], st["rv"]["r"]
+                if l_.get("k") in ("copy", "move") and _const_int(r_) is not None:
+                    sp2 = F.source_place(g, l_)
+                    if sp2 and _field_of_deref_arg(g, sp2) == fld:
+                        out.append((i, st["rv"]["op"].split("With")[0], _const_int(r_)))
+        return out
+    mine = updates(fn)
+    incs = [(i, k) for i, op_, k in mine if op_ == "Add" and k >= c and i != site.bb and fn.dominates(i, site.bb)]
+    if not incs:
+        return None
+    a_bb = max(incs, key=lambda x: len(fn.reachable_from(0)) - len(fn.reachable_from(x[0])))[0]
+    between = fn.reachable_from(a_bb)
+    for i, op_, k in mine:
+        if op_ == "Sub" and i != site.bb and i in between and site.bb in fn.reachable_from(i):
+            return None
+    # who else writes the field
+    for g in P.fns.values():
+        if g.key == P.fns.get(fn.key, fn).key or g.derived:
+            continue
+        for i, st in g.stmts():
+            if st["k"] != "assign":
+                continue
+            fl = [e for e in st["pl"]["p"] if isinstance(e, dict) and "f" in e]
+            if fl and fl[-1].get("adt") == fld[0] and fl[-1].get("n") == fld[1]:
+                return None
+            if st["rv"]["k"] in ("ref", "rawptr") and st["rv"].get("bk") in ("mut", "Mut"):
+                fl = [e for e in st["rv"]["pl"]["p"] if isinstance(e, dict) and "f" in e]
+                if fl and fl[-1].get("adt") == fld[0] and fl[-1].get("n") == fld[1]:
+                    return None
+    return "leave of an enter / leave pair on %s.%s (dominating `+= %d`, no other decrement in between, field written nowhere else): " \
+           "the counter never drops below its value at function entry" % (fld[0].split("::")[-1], fld[1], c)
+
+
+TOTAL_CONSUMERS = re.compile(
+    r"^core::slice::<impl \[T\]>::(get|get_mut|first|last)$|^alloc::vec::Vec::(get|get_mut)$|"
+    r"^core::num::<impl (usize|u64|isize|i64)>::(saturating_add|saturating_sub|saturating_mul|checked_add|checked_sub|checked_mul|checked_div|"
+    r"wrapping_add|wrapping_sub|min|max|clamp)$|^core::cmp::(Ord::)?(min|max)$|^core::cmp::Ord::(min|max|clamp)$|"
+    r"<(usize|u64|isize|i64) as core::cmp::(Ord|PartialOrd|PartialEq)>::\w+$|^core::option::Option::(map|and_then|unwrap_or)$")
+
+
+def mech_total_consumers(site):
+    """a sign-changing / widening index cast (isize <-> usize, i64 -> usize ..) whose result is only ever compared, clamped, or handed to a
+    checked accessor (`slice.get(i)`, `saturating_add`, `checked_*`): a wrapped value cannot panic or address an element - it is at worst
+    `None` from `get`.  (A cast whose result is indexed with, or put into a value, stays an open site.)"""
+    if site.kind != "cast" or site.stmt is None or site.stmt["pl"]["p"]:
+        return None
+    rv = site.stmt["rv"]
+    if not (rv["from"] in ("isize", "usize", "i64", "u64") and rv["to"] in ("isize", "usize", "i64", "u64")):
+        return None
+    fn = site.fn
+    work, seen, uses = [site.stmt["pl"]["l"]], set(), 0
+    while work:
+        l = work.pop()
+        if l in seen:
+            continue
+        seen.add(l)
+        for i, st in fn.stmts():
+            if st["k"] != "assign":
+                continue
+            ops = [o for o in _stmt_operands(st) if o.get("k") in ("copy", "move") and o["pl"]["l"] == l]
+            if st["rv"]["k"] in ("ref", "copy_for_deref") and st["rv"]["pl"]["l"] == l:
+                ops = [st["rv"]["pl"]]
+            if not ops:
+                continue
+            uses += 1
+            k = st["rv"]["k"]
+            if k in ("use", "ref", "copy_for_deref") and not st["pl"]["p"]:
+                work.append(st["pl"]["l"])
+            elif k == "binop" and st["rv"]["op"] in ("Eq", "Ne", "Lt", "Le", "Gt", "Ge"):
+                continue
+            else:
+                return None
+        for c in fn.calls:
+            if any(a.get("k") in ("copy", "move") and a["pl"]["l"] == l for a in c.args):
+                uses += 1
+                if not TOTAL_CONSUMERS.search(short(c.name)):
+                    return None
+                if re.search(r"saturating_|checked_|wrapping_|::(min|max|clamp)$", short(c.name)) and c.dest is not None and not c.dest["p"]:
+                    work.append(c.dest["l"])
+        for b in fn.reach:
+            t = fn.blocks[b]["term"]
+            if t["k"] == "switch" and t["discr"].get("k") in ("copy", "move") and t["discr"]["pl"]["l"] == l:
+                uses += 1
+    if uses == 0:
+        return None
+    return "index cast consumed only by comparisons / saturating arithmetic / checked accessors (get): a wrapped value yields None, never a panic"
+
+
+def _stmt_operands(st):
+    rv = st["rv"]
+    k = rv["k"]
+    if k in ("use", "cast", "repeat"):
+        return [rv["op"]]
+    if k == "binop":
+        return [rv["l"], rv["r"]]
+    if k == "unop":
+        return [rv["o"]]
+    if k == "aggr":
+        return [o for o in rv["ops"] if isinstance(o, dict)]
+    return []
 
 
 def _op_ident(fn, op):
@@ -558,13 +744,52 @@ def req_len_guard(site, req):
                 if n is None or cv < n:
                     n = cv
                     guard_tgt = tgt
+    len_fact_at = None
+    if n is None:
+        # the guard of an or-pattern arm (`A | B if v.len() == 2 => ..`) is evaluated once per alternative: no single edge dominates
+        # the arm, but `len == N` is a fact on every path into it
+        try:
+            fa = PR.facts(fn)
+
+            def len_fact_at(bb):
+                """N such that on every path to bb some test `<len> == N'` with N' >= N succeeded (each alternative of the or-pattern
+                has its own copy of the test, so the fact is looked for per path)"""
+                ws = fa.worlds_at(bb)
+                if not ws:
+                    return None
+                overall = None
+                for w in ws:
+                    best_ = None
+                    for key_, val in w:
+                        a = fa.atoms.get(key_, {})
+                        if a.get("kind") != "binop" or a.get("op") != "Eq" or val is not True:
+                            continue
+                        l, r = a["l"], a["r"]
+                        cv = _const_int(r) if _const_int(r) is not None else _const_int(l)
+                        other = l if _const_int(r) is not None else r
+                        if cv is None or other.get("k") not in ("copy", "move"):
+                            continue
+                        if any(oc.kind == "call" and short(oc.call.name) in ("alloc::vec::Vec::len", "core::slice::<impl [T]>::len")
+                               for oc in F.origins(fn, other, depth=3, through_calls=False)):
+                            best_ = cv if best_ is None else min(best_, cv)
+                    if best_ is None:
+                        return None
+                    overall = best_ if overall is None else min(overall, best_)
+                return overall
+            n = len_fact_at(site.bb)
+        except Exception:
+            n = None
     if n is None:
         return False
     recv = _recv_root(fn, c)
     removes = 0
     for c2 in fn.calls:
         if short(c2.name) == "alloc::vec::Vec::remove" and _recv_root(fn, c2) == recv:
-            if c2.bb == c.bb or (fn.dominates(c2.bb, site.bb) and fn.dominates(guard_tgt, c2.bb)):
+            if guard_tgt is not None:
+                inside = fn.dominates(guard_tgt, c2.bb)
+            else:
+                inside = len_fact_at is not None and len_fact_at(c2.bb) == n
+            if c2.bb == c.bb or (fn.dominates(c2.bb, site.bb) and inside):
                 removes += 1
     sn = short(c.name)
     if sn == "alloc::vec::Vec::remove":
@@ -675,7 +900,7 @@ def run_inventory(R, rid, root_name, desc, restrict=None):
     for key in sorted(by_key):
         ss = by_key[key]
         for idx, s in enumerate(sorted(ss, key=lambda s: (s.file, s.line))):
-            how = mech_const_divisor(s) or mech_counter(s) or mech_const_ctor(s) or mech_lengths(s) or mech_const_clamp(s) or mech_position_index(s) or mech_guarded_sub(s) or mech_full_range(s) or mech_excluded_variant(s) or mech_widened(s)
+            how = mech_const_divisor(s) or mech_counter(s) or mech_const_ctor(s) or mech_lengths(s) or mech_const_clamp(s) or mech_position_index(s) or mech_guarded_sub(s) or mech_full_range(s) or mech_excluded_variant(s) or mech_widened(s) or mech_total_consumers(s) or mech_bounded_capacity(s) or mech_balanced_counter(s)
             if how:
                 R.ok(rid, key, "mechanical: " + how, s.loc(), nontrivial=False)
                 continue
